@@ -142,9 +142,53 @@ outer2:
 		}
 	}
 
+	if !listPatchReproduces(src, ret, dst) {
+		// Entry-wise patching cannot express this change (reordered or
+		// duplicated entries, a $delete that would hit other entries too).
+		dst = slices.Clone(dst)
+		dst = append(dst, map[string]any{"$replace": true})
+
+		return dst, nil
+	}
+
 	if len(ret) == 0 {
 		return nil, nil
 	}
 
 	return ret, nil
+}
+
+// listPatchReproduces applies patch to src with bkl's own list merge and
+// reports whether the result is exactly dst.
+func listPatchReproduces(src, patch, dst []any) bool {
+	if len(patch) == 0 {
+		return reflect.DeepEqual(src, dst)
+	}
+
+	p, err := bkl.New()
+	if err != nil {
+		return false
+	}
+
+	base := bkl.NewDocumentWithData("base", map[string]any{"l": slices.Clone(src)})
+
+	err = p.MergeDocument(base)
+	if err != nil {
+		return false
+	}
+
+	layer := bkl.NewDocumentWithData("layer", map[string]any{"l": slices.Clone(patch)})
+	layer.AddParents(base)
+
+	err = p.MergeDocument(layer)
+	if err != nil {
+		return false
+	}
+
+	got, ok := p.Documents()[0].Data.(map[string]any)
+	if !ok {
+		return false
+	}
+
+	return reflect.DeepEqual(got["l"], any(dst))
 }
